@@ -5,7 +5,7 @@
 Require Import List NArith ZArith Bool.
 Import ListNotations.
 Require Import LV.PropTree.PropModel LV.PropTree.DocSpec LV.PropTree.PropProofs LV.PropTree.QuoteProofs
-        LV.PropTree.RebuildProofs LV.PropTree.ApiProofs LV.PropTree.WfProofs
+        LV.PropTree.RebuildProofs LV.PropTree.ApiProofs LV.PropTree.WfProofs LV.PropTree.CopyProofs
         LV.PropTree.DescGrammar LV.PropTree.GrammarProofs.
 
 (* For every sequence of set / delete / get / type / count / keys / get_subtree / set_subtree
@@ -58,7 +58,10 @@ Proof. exact (parse_quote_key_two k k2). Qed.
 Print Assumptions c13_quote_key_nested.
 
 (* ---------------------------------------------------------------- operation sequences with copy.
-   prop_refines_doc: for EVERY op sequence - vnaproperty_copy out of and into subtrees included -
+   prop_refines_doc: for EVERY op sequence - vnaproperty_copy out of and into subtrees included, and
+   the ALIASED copy OCopyWithin d d2 (p = set_subtree(&root, d); s = get_subtree(root, d2);
+   vnaproperty_copy(p, s): source inside the destination, destination inside the source, equal,
+   disjoint, absent source, destination created by the call) -
    started from the empty state (or from any well-formed state), during which no list reaches
    2^31 - 1 elements (lens_run; beyond that "%d" of an index no longer reads back and
    vnaproperty_count cannot represent the length), the abstraction of the model state is the
@@ -75,7 +78,9 @@ Theorem c13_prop_refines_doc_from (ops : list op) (s : state) :
 Proof. exact (sim_run_full ops s). Qed.
 Print Assumptions c13_prop_refines_doc_from.
 
-(* the hypothesis is met by a script with sets, an append, set_subtree, copies and a delete *)
+(* the hypothesis is met by a script with sets, an append, set_subtree, copies, a delete and five aliased
+   copies (source inside destination, destination inside source, source = destination, missing source,
+   destination created by an append with the whole tree as source) *)
 Theorem c13_prop_refines_doc_satisfiable : lens_run init_state example_ops.
 Proof. exact lens_run_example. Qed.
 Print Assumptions c13_prop_refines_doc_satisfiable.
@@ -96,6 +101,97 @@ Print Assumptions c13_parsed_keys_nonempty.
 Theorem c13_copy_is_deep_copy (dest src : node) : wf src -> abs (copy dest src) = abs src.
 Proof. exact (copy_abs dest src). Qed.
 Print Assumptions c13_copy_is_deep_copy.
+
+(* ---------------------------------------------------------------- the aliased copy (fix D71).
+   One step of the refinement for OCopyWithin (it is one case of c13_prop_refines_doc): the document rule
+   is "conform the path of d; the value at d becomes the value that d2 had in the conformed document
+   (null when absent); nothing else changes". *)
+Theorem c13_copy_within_refines_doc (s : state) (d d2 : bytes) :
+  wf_state s -> lens_state (fst (step s (OCopyWithin d d2))) ->
+  d_step (abs_state s) (OCopyWithin d d2)
+  = (abs_state (fst (step s (OCopyWithin d d2))), abs_out (snd (step s (OCopyWithin d d2)))).
+Proof. exact (sim_step s (OCopyWithin d d2)). Qed.
+Print Assumptions c13_copy_within_refines_doc.
+
+(* the walk that conforms the destination path is the same whatever is stored at its end (this is why
+   the model may run it once to find the conformed tree and once to store the copy) *)
+Theorem c13_set_walk_independent_of_stored_value {A B} (es : list expr)
+        (fin : node -> node * A) (fin' : node -> node * B) (n : node) :
+  map_inr (fun _ => tt) (snd (descend_set es fin n)) = map_inr (fun _ => tt) (snd (descend_set es fin' n)).
+Proof. exact (descend_set_result_indep es fin fin' n). Qed.
+Print Assumptions c13_set_walk_independent_of_stored_value.
+
+(* every destination path of keys / in-range subscripts, EVERY source descriptor: the call succeeds and
+   the destination then reads back as the document the source had before the copy *)
+Theorem c13_copy_within_reads_back (root : node) (d d2 : bytes) pd rd :
+  wf root -> parse d = Some (pd, T_EOF, rd) -> Forall plain_step pd ->
+  lens (fst (copy_within root d d2)) ->
+  exists a c, descend_get pd (fst (vset_subtree root d)) = inr a /\
+              descend_get pd (fst (copy_within root d d2)) = inr c /\
+              abs c = abs (source_of (fst (vset_subtree root d)) d2) /\
+              snd (copy_within root d d2) = ok0.
+Proof. exact (copy_within_reads_back root d d2 pd rd). Qed.
+Print Assumptions c13_copy_within_reads_back.
+
+(* source inside the destination, vnaproperty_copy(&root.a, root.a.b): the destination becomes the old
+   inner value (before D71: use after free) *)
+Theorem c13_copy_source_inside_destination (root : node) (d d2 : bytes) pd ps rd rs :
+  wf root -> parse d = Some (pd, T_EOF, rd) -> Forall plain_step pd ->
+  parse d2 = Some (pd ++ ps, T_EOF, rs) ->
+  lens (fst (copy_within root d d2)) ->
+  exists a c, descend_get pd (fst (vset_subtree root d)) = inr a /\
+              descend_get pd (fst (copy_within root d d2)) = inr c /\
+              abs c = abs (match descend_get ps a with inr n => n | inl _ => NNull end) /\
+              snd (copy_within root d d2) = ok0.
+Proof. exact (copy_source_inside_destination root d d2 pd ps rd rs). Qed.
+Print Assumptions c13_copy_source_inside_destination.
+
+Theorem c13_copy_source_inside_destination_example :
+  wf ex_root /\ parse [97]%N = Some ([E_MAP_ELEMENT [97]%N], T_EOF, []) /\ Forall plain_step [E_MAP_ELEMENT [97]%N] /\
+  parse [97; 46; 98]%N = Some ([E_MAP_ELEMENT [97]%N] ++ [E_MAP_ELEMENT [98]%N], T_EOF, []) /\
+  lens (fst (copy_within ex_root [97]%N [97; 46; 98]%N)) /\
+  copy_within ex_root [97]%N [97; 46; 98]%N = (NMap [([97]%N, NScalar [120]%N)], ok0).
+Proof. exact copy_source_inside_destination_example. Qed.
+Print Assumptions c13_copy_source_inside_destination_example.
+
+(* destination inside the source, vnaproperty_copy(&root.a.b, root.a): the destination becomes a finite
+   snapshot of the old source; inside the snapshot the destination path holds the OLD destination value
+   (before D71: unbounded recursion) *)
+Theorem c13_copy_destination_inside_source (root : node) (d d2 : bytes) ps pd rd rs :
+  wf root -> parse d2 = Some (ps, T_EOF, rs) -> parse d = Some (ps ++ pd, T_EOF, rd) ->
+  Forall plain_step (ps ++ pd) ->
+  lens (fst (copy_within root d d2)) ->
+  exists s a c, descend_get ps (fst (vset_subtree root d)) = inr s /\
+                descend_get pd s = inr a /\
+                descend_get (ps ++ pd) (fst (copy_within root d d2)) = inr c /\
+                abs c = abs s /\
+                doc_get pd (abs c) = inr (abs a) /\
+                snd (copy_within root d d2) = ok0.
+Proof. exact (copy_destination_inside_source root d d2 ps pd rd rs). Qed.
+Print Assumptions c13_copy_destination_inside_source.
+
+Theorem c13_copy_destination_inside_source_example :
+  wf ex_root /\ parse [97]%N = Some ([E_MAP_ELEMENT [97]%N], T_EOF, []) /\
+  parse [97; 46; 98]%N = Some ([E_MAP_ELEMENT [97]%N] ++ [E_MAP_ELEMENT [98]%N], T_EOF, []) /\
+  Forall plain_step ([E_MAP_ELEMENT [97]%N] ++ [E_MAP_ELEMENT [98]%N]) /\
+  lens (fst (copy_within ex_root [97; 46; 98]%N [97]%N)) /\
+  copy_within ex_root [97; 46; 98]%N [97]%N
+  = (NMap [([97], NMap [([98], NMap [([98], NScalar [120]); ([107], NScalar [121])]); ([107], NScalar [121])])]%N, ok0).
+Proof. exact copy_destination_inside_source_example. Qed.
+Print Assumptions c13_copy_destination_inside_source_example.
+
+(* source = destination; absent source (destination becomes null); destination created by "[+]" with the
+   whole list as source; a destination path that cannot be created (EINVAL, the source is not looked up) *)
+Theorem c13_copy_within_more_examples :
+  copy_within ex_root [97]%N [97]%N = (ex_root, ok0) /\
+  copy_within ex_root [97; 46; 98]%N [113]%N
+  = (NMap [([97], NMap [([98], NNull); ([107], NScalar [121])])]%N, ok0) /\
+  copy_within (NList [NScalar [120]%N] 8) [91; 43; 93]%N [46]%N
+  = (NList [NScalar [120]%N; NList [NScalar [120]%N; NNull] 8] 8, ok0) /\
+  copy_within ex_root [122; 91; 50; 49; 52; 55; 52; 56; 51; 54; 52; 55; 93]%N [97]%N
+  = (NMap [([97], NMap [([98], NScalar [120]); ([107], NScalar [121])]); ([122], NList [] 0)]%N, mkOut (-2) EINVAL PNone).
+Proof. exact copy_within_more_examples. Qed.
+Print Assumptions c13_copy_within_more_examples.
 
 (* "[%d]" descriptors address exactly that index (used by copy and by the YAML importer) *)
 Theorem c13_index_descriptor (i : nat) :
@@ -271,6 +367,14 @@ Theorem c13_descriptor_grammar_rejects (d : bytes) :
   parse d = None <-> forall es t r, ~ denotes d es t r.
 Proof. exact (parse_none_iff d). Qed.
 Print Assumptions c13_descriptor_grammar_rejects.
+
+(* fuel adequacy for every input: parse_loop with any fuel >= length d + 2 returns what parse returns, so
+   parse's None always means "no prefix of d is a descriptor" and never "out of fuel" *)
+Theorem c13_parse_fuel_adequate (d : bytes) (fuel : nat) :
+  (S (S (length d)) <= fuel)%nat ->
+  (let '(t, r) := scan d in parse_loop fuel P0 t r []) = parse d.
+Proof. exact (parse_fuel_adequate d fuel). Qed.
+Print Assumptions c13_parse_fuel_adequate.
 
 Theorem c13_descriptor_denotation_unique (d : bytes) es t r es' t' r' :
   denotes d es t r -> denotes d es' t' r' -> es = es' /\ t = t' /\ r = r'.
